@@ -1,5 +1,6 @@
 import HapVerif.Model.C07
 import HapVerif.Drv.Common
+import HapVerif.Drv.C18
 namespace HapVerif.C07
 open HapVerif.Drv
 
@@ -7,6 +8,7 @@ open HapVerif.Drv
 `ids <link,link,…>`; impl output: the ids the real AddBackendPath handed out, `link=NN,…` -/
 def handle (args : List String) (impl : String) : Verdict :=
   match args with
+  | "alloc" :: _ => HapVerif.C18.handle args impl   -- auth-proxy port allocator (model + Spec shared with C18)
   | "ids" :: [links] =>
     match parseList (fun s => some s) links with
     | some ls =>
